@@ -7,7 +7,9 @@ lines = ["### 8.6 Kill matrix", "",
          "Produced by `tools/killmatrix.py --tests` (every change applied to a scratch worktree of /repo HEAD, the quick",
          "check of the property run against it with `VERIF_REPO_SRC`, and the repository's own tests run on the changed",
          "tree). `mutant` = hand-written (`tools/mutants/<name>.diff`), `seeded` = written by an independent sub-agent that",
-         "saw only the property text (`seeded/<id>/`, two rounds: `Cxx` and `Cxxb`). Full rows incl. the first violation",
+         "saw only the property text (`seeded/<id>/`: two rounds per property, `Cxx` and `Cxxb`, and a file-targeted round",
+         "`Fxx` in which the author also guessed further properties; a `(S, guess)` is such a guess that the demo does not",
+         "substantiate). Full rows incl. the first violation",
          "reported are in `seeded/KILLMATRIX.md`.", ""]
 by = {}
 for k, v in km.items():
@@ -22,7 +24,7 @@ for p in sorted(by):
         tot[v["status"]] = tot.get(v["status"], 0) + 1
         n = v["change"].replace("seeded/", "seed:")
         if v["status"] != "KILLED":
-            n += " (S)" if v["status"] == "SURVIVED" else " (ERR)"
+            n += (" (S, guess)" if v.get("note") else " (S)") if v["status"] == "SURVIVED" else " (ERR)"
             surv.append((p, v))
         names.append(n)
     k = sum(1 for v in rows if v["status"] == "KILLED")
@@ -51,6 +53,12 @@ for d in sorted(os.listdir(os.path.join(root, "seeded"))):
     summ = re.sub(r"\s+", " ", m.get("summary", ""))[:260].replace("|", "/")
     runs = "; ".join(f"{k}: {v.split('(')[0].strip()}" for k, v in (m.get("checks_run") or {}).items())
     lines.append(f"| {d} | {summ} | {runs} |")
+with open(os.path.join(root, "seeded", "KILLMATRIX.md"), "w") as f:
+    f.write("| property | change | kind | result | first violation reported | baseline tests with change | note |\n|---|---|---|---|---|---|---|\n")
+    for k in sorted(km):
+        v = km[k]
+        f.write(f"| {v['property']} | {v['change']} | {v['kind']} | {v['status']} | {(v.get('first_violation') or '').replace('|', '/')} "
+                f"| {v.get('baseline_tests') or ''} | {v.get('note') or ''} |\n")
 text = "\n".join(lines) + "\n"
 p = os.path.join(root, "DESIGN.md")
 s = open(p).read()
